@@ -29,8 +29,8 @@ PROP = dict(
           'non-trivial = encoded length >= 2, value within +-2 of a table '
           'boundary, or an adjacent pair whose lengths differ (Elias: some '
           'value > 1; zig-zag: n != 0); distinct by hash of (kind, values)'),
-    quick=dict(configs=['asan', 'rel', 'dbg'], cases=14000000, maxlen=96),
-    thorough=dict(configs=['asan', 'rel', 'dbg'], cases=80000000, maxlen=96,
+    quick=dict(configs=['asan', 'rel', 'dbg', 'native'], cases=14000000, maxlen=96),
+    thorough=dict(configs=['asan', 'rel', 'dbg', 'native'], cases=80000000, maxlen=96,
                   fuzz_s=60, setmax=1 << 23),
     required_classes=['tagged.len9', 'chained.len9', 'chainedSimple.len9',
                       'split.len9', 'splitFull.len9', 'splitFullNoZero.len9',
